@@ -4,8 +4,10 @@
 package lexer
 
 // ---- C20: tokenisation and token dispensing never crash ----
+// readerSrc(b): the reader a buffered reader was created on.
+//@ uninterp func readerSrc(b *bufio.Reader) io.Reader
 //@ extern func bufio.NewReader(rd io.Reader) *bufio.Reader
-//@   ensures result != nil && fresh(result)
+//@   ensures result != nil && fresh(result) && readerSrc(result) == rd
 //@ func (*lexer).load
 //@   prop C20
 //@   nopanic
